@@ -73,10 +73,10 @@ structure LElem (ρ : Type) where
   val : Option ρ
   deriving Repr
 
-/-- front first; `next` = the identity the next pushed element gets -/
+/-- front first; `nextId` = the identity the next pushed element gets -/
 structure LList (ρ : Type) where
   items : List (LElem ρ) := []
-  next : Nat := 0
+  nextId : Nat := 0
   deriving Repr
 
 instance {ρ : Type} : Inhabited (LList ρ) := ⟨{}⟩
@@ -92,7 +92,7 @@ def find (l : LList ρ) (e : Option Nat) : Option (LElem ρ) :=
   | some i => l.items.find? (fun x => x.id == i)
 
 def pushFront (l : LList ρ) (kv : Bytes × Option ρ) : LList ρ × Option Nat :=
-  ({ items := ⟨l.next, kv.1, kv.2⟩ :: l.items, next := l.next + 1 }, some l.next)
+  ({ items := ⟨l.nextId, kv.1, kv.2⟩ :: l.items, nextId := l.nextId + 1 }, some l.nextId)
 
 def remove (l : LList ρ) (e : Option Nat) : LList ρ :=
   match e with
